@@ -270,7 +270,12 @@ def apply_op(labs, wl, op: dict):
         kw = {n: op[n] for n in ("diti_reuse", "multi_disp", "liquid_class", "direction", "src_rack_id", "src_rack_type",
                                  "dst_rack_id", "dst_rack_type") if n in op}
         if "exclude" in op:
-            kw["exclude_wells"] = [fl(x) for x in op["exclude"]]
+            ex = [fl(x) for x in op["exclude"]]
+            # any iterable is legal (`Optional[Iterable[int]]`): list, tuple, set, one-shot iterator, generator, int array
+            k4 = _layout(("excl", tuple(repr(x) for x in ex))) if ex else 0
+            all_int = all(isinstance(x, int) and not isinstance(x, bool) for x in ex)
+            kw["exclude_wells"] = (ex if k4 == 0 else tuple(ex) if k4 == 1 else iter(list(ex)) if k4 == 2
+                                   else (x for x in list(ex)) if not all_int else np.array(ex, dtype=int))
         wl.reagent_distribution(op["src_label"], fl(op["src_start"]), fl(op["src_end"]), op["dst_label"], fl(op["dst_start"]),
                                 fl(op["dst_end"]), volume=fl(op["vol"]), **kw)
     elif k in ("evo_aspirate", "evo_dispense"):
@@ -289,6 +294,28 @@ def apply_op(labs, wl, op: dict):
                     retract_speed=fl(op["retract_speed"]), fastwash=fl(op["fastwash"]), low_volume=fl(op["low_volume"]))
     else:
         raise KeyError(k)
+
+
+def _poke_returned_objects(labs):
+    """What a public accessor returns belongs to the caller: a script may edit it (convert fractions to percent, pop
+    entries, scale a copy of the volumes).  After every operation the harness does so with the dict of
+    `get_well_composition` (first / last / middle well) and the array of `volumes`; the library's own state must not
+    care (a cache that hands out its own object would)."""
+    for L in labs:
+        try:
+            W = L.wells
+            for w in {str(W[0, 0]), str(W[-1, -1]), str(W[W.shape[0] // 2, W.shape[1] // 2])}:
+                d = L.get_well_composition(w)
+                if isinstance(d, dict):
+                    for k in list(d):
+                        d[k] = d[k] * 100 + 7
+                    d["__poked__"] = 1.0
+                    d.pop(next(iter(d)), None)
+            v = L.volumes
+            if isinstance(v, np.ndarray) and v.flags.writeable:
+                v[...] = -555.0
+        except Exception:  # noqa: BLE001
+            pass
 
 
 class Run:
@@ -362,6 +389,7 @@ def run_program(prog: dict, observers=(), stop_on_error: bool = True) -> Run:
         r.obs.append({"err": classify(exc), "exc": repr(exc) if exc else None, "state": dump_state(r.labs, r.wl)})
         for ob in observers:
             ob(r, i, op, exc)
+        _poke_returned_objects(r.labs)
         if exc is not None and stop_on_error:
             break
     return r
